@@ -988,6 +988,47 @@ s_unwrap(void)
     json_decref(want);
 }
 
+/* jose_jwe_dec_jwk for every key-management family (the two-step API: a lying unwrap is visible here, the one-shot
+ * jose_jwe_dec would still fail later).  RSA1_5 may by design hand out a random key on a padding failure
+ * (RFC 3218), so only "success implies key material" is demanded of it. */
+static json_t *E_rsa15;
+
+static void
+unwrap_common(const json_t *jwe, const json_t *k, bool exact)
+{
+    json_t *want = jose_jwe_dec_jwk(CFG, jwe, NULL, k);
+    snap(jwe, "jwe", true);
+    snap(k, "jwk", true);
+    BEGIN();
+    json_t *cek = jose_jwe_dec_jwk(CFG, jwe, NULL, k);
+    END();
+    R.ok = cek != NULL;
+    if (cek) {
+        const char *kk = json_string_value(json_object_get(cek, "k"));
+        R.prod = shapes(cek);
+        if (!kk || !*kk)
+            bad("unwrap reported success but the CEK carries no key material");
+        else if (exact && (!want || !json_equal(json_object_get(cek, "k"), json_object_get(want, "k"))))
+            bad("unwrapped CEK differs from the fault-free one");
+    }
+    RELEASE();
+    snaps_check();
+    json_decref(cek);
+    json_decref(want);
+}
+
+static void s_unwrap_rsa15(void)
+{
+    if (!E_rsa15)
+        E_rsa15 = mkjwe("{\"protected\":{\"alg\":\"RSA1_5\",\"enc\":\"A128GCM\"}}", P_rsa);
+    unwrap_common(E_rsa15, key("rsa"), false);
+}
+static void s_unwrap_rsaoaep(void) { unwrap_common(E_rsa, key("rsa"), true); }
+static void s_unwrap_ecdhes(void) { unwrap_common(E_ecdhes, key("ec"), true); }
+static void s_unwrap_pbes2(void) { unwrap_common(E_pbes2, key("pwd"), true); }
+static void s_unwrap_gcmkw(void) { unwrap_common(E_gcmkw, key("kw"), true); }
+static void s_unwrap_dir(void) { unwrap_common(E_dir, key("oct2"), true); }
+
 /* ------------------------------------------------------------------ scenarios: base64url */
 
 static void
@@ -1430,6 +1471,8 @@ static const scen_t scens[] = {
     { "ver-multi-all", s_ver_multi_all }, { "ver-multi-any", s_ver_multi_any }, { "ver-wrongkey", s_ver_wrongkey },
     { "verio-hs256", s_verio_hs256 }, { "verio-hs256-bad", s_verio_hs256_bad }, { "verio-es256", s_verio_es256 },
     { "wrap", s_wrap }, { "unwrap", s_unwrap },
+    { "unwrap-rsa15", s_unwrap_rsa15 }, { "unwrap-rsaoaep", s_unwrap_rsaoaep }, { "unwrap-ecdhes", s_unwrap_ecdhes },
+    { "unwrap-pbes2", s_unwrap_pbes2 }, { "unwrap-gcmkw", s_unwrap_gcmkw }, { "unwrap-dir", s_unwrap_dir },
     { "enc-kwgcm", s_enc_kwgcm }, { "enc-cbc", s_enc_cbc }, { "enc-zip", s_enc_zip }, { "enc-pbes2", s_enc_pbes2 },
     { "enc-ecdhes", s_enc_ecdhes }, { "enc-rsa", s_enc_rsa }, { "enc-gcmkw", s_enc_gcmkw }, { "enc-dir", s_enc_dir },
     { "enc-infer", s_enc_infer },
